@@ -4,11 +4,12 @@ import copy
 
 OUTCOMES = ['done', 'failedRet', 'raises', 'retNone', 'notPair', 'badStatus', 'badUpdate',
             # variants of the classes above (mapped onto them for the model, see MODEL_OUTCOME)
-            'sysExit', 'retWaiting', 'retPending', 'clobberOwn']
+            'sysExit', 'retWaiting', 'retPending', 'clobberOwn', 'badUpdateEmptyList', 'badUpdateZero', 'badUpdateEmptyStr']
 # the model has one constructor per class of outcome; the concrete variants generated here are mapped onto their class:
 # an exception that is not an `Exception` (SystemExit) is a raising task, a status that is not a final one is a bad
 # status, an update that replaces the task's own entry by something that is not a mapping is a bad update
-MODEL_OUTCOME = {'sysExit': 'raises', 'retWaiting': 'badStatus', 'retPending': 'badStatus', 'clobberOwn': 'badUpdate'}
+MODEL_OUTCOME = {'sysExit': 'raises', 'retWaiting': 'badStatus', 'retPending': 'badStatus', 'clobberOwn': 'badUpdate',
+                 'badUpdateEmptyList': 'badUpdate', 'badUpdateZero': 'badUpdate', 'badUpdateEmptyStr': 'badUpdate'}
 CORRESPONDS = ('Model/Sched.lean (init, step, enabled, decide, terminal) vs valjean.cosette.backends.queue.QueueScheduling + '
                'valjean.cosette.env.Env under the controlled scheduler (harness/vcheck/ctlsched.py): the recorded schedule is '
                'replayed in the model; environment, queue, counters, what every task saw when it started and the set of enabled '
@@ -49,6 +50,13 @@ def gen_round(rng, n, deps, hard, profile):
             'twice': rng.random() < 0.4}
 
 
+def regraph(rng, rnd):
+    """another graph over the same task names (the next job handed to the same backend object)"""
+    deps, hard = gen_graph(rng, max(rnd['n'], 1) + 3, rng.choice([0.0, 0.3, 0.6, 0.9]))
+    rnd['deps'] = [list(d) for d in deps[:rnd['n']]]
+    rnd['hard'] = [list(d) for d in hard[:rnd['n']]]
+
+
 def gen(rng, tier, profile):
     """profile: 'C01' (single run, races), 'C02' (empty env, outcomes), 'C03' (cyclic, stale envs, repeated calls),
     'C04' (histories of re-runs)"""
@@ -59,8 +67,9 @@ def gen(rng, tier, profile):
     rounds = [gen_round(rng, n, deps, hard, profile)]
     if profile == 'C03':
         r = rounds[0]
-        if rng.random() < 0.12:
+        if rng.random() < 0.15:
             r['cyclic'] = True
+            r['cycle_kind'] = rng.choice(['hard', 'soft', 'mixed'])
         if rng.random() < 0.4:
             for t in range(n):
                 if rng.random() < 0.4:
@@ -69,8 +78,18 @@ def gen(rng, tier, profile):
             nxt = gen_round(rng, n, deps, hard, profile)
             nxt['same_backend'] = True
             nxt['workers'] = r['workers']
+            if rng.random() < 0.4:
+                regraph(rng, nxt)
             rounds.append(nxt)
-    if profile == 'C01' and rng.random() < 0.35:
+    if profile in ('C01', 'C02') and rng.random() < 0.25:
+        # the backend object serves a second job: same task names, another graph, a new empty environment
+        nxt = gen_round(rng, n, deps, hard, profile)
+        regraph(rng, nxt)
+        nxt['same_backend'] = True
+        nxt['fresh_env'] = True
+        nxt['workers'] = rounds[0]['workers']
+        rounds.append(nxt)
+    elif profile == 'C01' and rng.random() < 0.35:
         # a resumed run: some results of the first run are lost, their dependents are stale
         nxt = gen_round(rng, n, deps, hard, profile)
         nxt['lose'] = [t for t in range(n) if rng.random() < 0.3]
@@ -207,6 +226,12 @@ def run_rounds(case, sched_override=None):
                 return update, TaskStatus.PENDING
             if out == 'clobberOwn':
                 return {self.name: 5}, TaskStatus.DONE
+            if out == 'badUpdateEmptyList':
+                return [], TaskStatus.DONE
+            if out == 'badUpdateZero':
+                return 0, TaskStatus.DONE
+            if out == 'badUpdateEmptyStr':
+                return '', TaskStatus.DONE
             raise ValueError(out)
 
     observations = []
@@ -228,8 +253,10 @@ def run_rounds(case, sched_override=None):
                     soft_graph.add_dependency(tasks[t], on=tasks[d])
         if rnd['cyclic']:
             if n >= 2:
-                hard_graph.add_dependency(tasks[0], on=tasks[n - 1])
-                hard_graph.add_dependency(tasks[n - 1], on=tasks[0])
+                # 'soft' / 'mixed': the cycle is closed by a soft dependency (only the full graph is cyclic)
+                kind = rnd.get('cycle_kind', 'hard')
+                (soft_graph if kind == 'soft' else hard_graph).add_dependency(tasks[0], on=tasks[n - 1])
+                (soft_graph if kind in ('soft', 'mixed') else hard_graph).add_dependency(tasks[n - 1], on=tasks[0])
             else:
                 extra = Probe(n, {'exec': [0] * (n + 1), 'seen': [None] * (n + 1), 'deps': rnd['deps'] + [[]],
                                   'out': rnd['out'] + ['done'], 'ctl': None, 'order': []})
@@ -241,7 +268,7 @@ def run_rounds(case, sched_override=None):
             ctl = ses.ctl
             # the environment is created inside the session: its lock is then an instrumented one
             env_in = Env()
-            if prev_env is not None:
+            if prev_env is not None and not rnd.get('fresh_env'):
                 prev_env.pop('shared', None)      # not a task entry (merge_done_tasks expects a status in every entry)
                 env_in.merge_done_tasks(prev_env)
                 for t in rnd['lose']:
